@@ -76,6 +76,7 @@ type Obligation struct {
 	Optional bool              // inferred/auxiliary: failure is "undecided", not a violation
 	HeapSorts map[string]string // heap variable -> sort (to declare entry values the query never mentions)
 	Children []*Obligation     // grouped obligations: discharged individually only when the group fails
+	Tags     map[string]int    // interface tag of each dynamic type (type key -> tag), for rebuilding values from a model
 	Bounds   string            // soft bounds on the inputs, tried first when extracting a replayable model
 }
 
